@@ -389,26 +389,96 @@ func r32OneInsertPerFeature(c *core.Ctx) {
 		"every normal path from Begin to return passes Commit of that transaction, outside the loop", "a normal return without tx.Commit() exists (page silently rolled back), or Commit is on another transaction / inside the loop")
 	c.Check(R, "extent-update-after-commit/"+f.Name, update.Pos(), core.Dominates(commit, update), "UpdateGeometryExtent runs after the commit", "the table extent is updated before the rows are committed")
 	// extent accumulated over every feature
+	const newExtID, addGeomID = "github.com/go-spatial/geom.NewExtentFromGeometry", "github.com/go-spatial/geom.Extent.AddGeometry"
+	// extHelper: a module helper called with this feature (or its geometry) in which every normal path to a
+	// return feeds that geometry to NewExtentFromGeometry/AddGeometry
+	extHelpers := map[*ssa.Function]bool{}
+	extHelper := func(call *ssa.Call) bool {
+		h := call.Call.StaticCallee()
+		if h == nil || len(h.Blocks) == 0 || !core.IsModPath(core.FuncPkgPath(h)) {
+			return false
+		}
+		for i, a := range call.Call.Args {
+			if i >= len(h.Params) {
+				break
+			}
+			a = core.Unwrap(a)
+			prm := h.Params[i]
+			var isGeomOfParam func(v ssa.Value) bool
+			if a == elem {
+				isGeomOfParam = func(v ssa.Value) bool {
+					g, ok := v.(*ssa.Call)
+					return ok && g.Call.IsInvoke() && g.Call.Method.Name() == "Geometry" && g.Call.Value == ssa.Value(prm)
+				}
+			} else if g, ok := a.(*ssa.Call); ok && g.Call.IsInvoke() && g.Call.Method.Name() == "Geometry" && g.Call.Value == elem {
+				isGeomOfParam = func(v ssa.Value) bool { return v == ssa.Value(prm) }
+			} else {
+				continue
+			}
+			feeds := func(in ssa.Instruction) bool {
+				hc, ok := in.(*ssa.Call)
+				if !ok {
+					return false
+				}
+				if id := core.StaticCalleeID(hc); id != newExtID && id != addGeomID {
+					return false
+				}
+				return isGeomOfParam(hc.Call.Args[len(hc.Call.Args)-1])
+			}
+			if miss, _ := (core.Search{Fn: h, Target: core.IsReturn, Barrier: feeds}).Run(); !miss {
+				extHelpers[h] = true
+				return true
+			}
+		}
+		return false
+	}
 	isExt := func(in ssa.Instruction) bool {
 		call, ok := in.(*ssa.Call)
 		if !ok {
 			return false
 		}
 		id := core.StaticCalleeID(call)
-		if id != "github.com/go-spatial/geom.NewExtentFromGeometry" && id != "github.com/go-spatial/geom.Extent.AddGeometry" {
-			return false
+		if id != newExtID && id != addGeomID {
+			return extHelper(call)
 		}
 		g, ok := call.Call.Args[len(call.Call.Args)-1].(*ssa.Call)
 		return ok && g.Call.IsInvoke() && g.Call.Method.Name() == "Geometry" && g.Call.Value == elem
 	}
 	noExt, _ := core.Search{Fn: fn, From: header, Target: instrIs(header), Barrier: isExt, Edge: bodyEntry}.Run()
+	// the accumulated extent is what is handed to UpdateGeometryExtent: it merges the extent a feature started
+	// (NewExtentFromGeometry's result, directly or as the result of the helper that calls it)
+	yieldsNewExtent := func(v ssa.Value) bool {
+		if ex, ok := v.(*ssa.Extract); ok {
+			if call, ok := ex.Tuple.(*ssa.Call); ok && core.StaticCalleeID(call) == newExtID {
+				return true
+			}
+		}
+		return false
+	}
 	extArg := false
 	if len(update.Call.Args) == 3 {
 		if phi, ok := update.Call.Args[2].(*ssa.Phi); ok {
 			for _, e := range phi.Edges {
-				if ex, ok := e.(*ssa.Extract); ok {
-					if call, ok := ex.Tuple.(*ssa.Call); ok && core.StaticCalleeID(call) == "github.com/go-spatial/geom.NewExtentFromGeometry" {
-						extArg = true
+				if yieldsNewExtent(e) {
+					extArg = true
+				}
+				if hc, ok := e.(*ssa.Call); ok && extHelper(hc) {
+					h := hc.Call.StaticCallee()
+					for _, hb := range h.Blocks {
+						for _, hin := range hb.Instrs {
+							if ret, ok := hin.(*ssa.Return); ok && len(ret.Results) == 1 {
+								if yieldsNewExtent(ret.Results[0]) {
+									extArg = true
+								}
+								if rp, ok := ret.Results[0].(*ssa.Phi); ok {
+									for _, re := range rp.Edges {
+										if yieldsNewExtent(re) {
+											extArg = true
+										}
+									}
+								}
+							}
+						}
 					}
 				}
 			}
@@ -443,6 +513,26 @@ func r32OneInsertPerFeature(c *core.Ctx) {
 					id := core.StaticCalleeID(ci)
 					if strings.HasPrefix(id, "github.com/go-spatial/geom.Extent.") && id != "github.com/go-spatial/geom.Extent.AddGeometry" {
 						unknown += fmt.Sprintf("%s @%s; ", id, c.P.Pos(ci.Pos()))
+					}
+				}
+			}
+		}
+		// inside the helpers that grow the extent: the extent parameter is only used as AddGeometry's receiver
+		for h := range extHelpers {
+			for _, prm := range h.Params {
+				if !strings.HasSuffix(prm.Type().String(), "geom.Extent") {
+					continue
+				}
+				for _, b := range h.Blocks {
+					for _, in := range b.Instrs {
+						ci, ok := in.(*ssa.Call)
+						if !ok || len(ci.Call.Args) == 0 || ci.Call.Args[0] != ssa.Value(prm) {
+							continue
+						}
+						id := core.StaticCalleeID(ci)
+						if strings.HasPrefix(id, "github.com/go-spatial/geom.Extent.") && id != addGeomID {
+							unknown += fmt.Sprintf("%s @%s; ", id, c.P.Pos(ci.Pos()))
+						}
 					}
 				}
 			}
